@@ -473,7 +473,7 @@ def _split_assign(s):
 # --------------------------------------------------------------------------- functions
 
 class Fn:
-    __slots__ = ('name', 'params', 'ret', 'locals', 'blocks', 'raw_lines', 'start_line', 'span_file', 'hash', 'promoted', 'header')
+    __slots__ = ('name', 'params', 'ret', 'locals', 'blocks', 'raw_lines', 'start_line', 'span_file', 'hash', 'promoted', 'header', 'recv')
 
     def __repr__(self):
         return '<Fn %s>' % self.name
@@ -604,6 +604,7 @@ def _parse_header(h):
 
 def _parse_fn(lines, start_line):
     fn = Fn()
+    fn.recv = None
     fn.promoted = None
     fn.header = lines[0]
     try:
